@@ -452,7 +452,8 @@ class Harness(object):
             elif info["op"] == "read":
                 if info.get("header"):
                     ent["eof"] = len(stream.inbox) < protonet.HEADER
-                    if f["how"] == "cut":
+                    if f["how"] == "cut" and (ent.get("flen") is None or len(stream.inbox) < ent["flen"]):
+                        # (the packet really is truncated; a cut beyond its end leaves it whole and only ends the stream after it)
                         ent["cut"] = f["at"]
                         ent.pop("msg", None)
                 else:
